@@ -1,33 +1,147 @@
 (* C03 — generated struct codecs round-trip and match the IDL schema encoding. Statements only.
-   Full statement (kept visible) and the parts proved; the full statement is decided on every run by the
-   correspondence on every generated struct type (model decode = ReadFrom, model encode(decode) = WriteTo). *)
-From Coq Require Import List NArith ZArith.
-From TarsV Require Import Base.Hex Codec.Wire Codec.Skip Codec.Prim Codec.GenCodec Codec.Corr Codec.GenProofs Gen.Schemas.
+   The model (Codec/GenCodec.v) is tied to the generated Go code on every run by the correspondence on every
+   generated struct type (model decode = ReadFrom, model encode(decode) = WriteTo, byte-exact). *)
+From Coq Require Import List NArith ZArith Sorted.
+From TarsV Require Import Base.Hex Codec.Wire Codec.Skip Codec.SkipProofs Codec.Prim Codec.PrimProofs Codec.GenCodec Codec.Corr Codec.GenProofs
+  Codec.RoundTrip Codec.RoundTripProofs Codec.NormProofs Codec.WireSpec Codec.WireSpecProofs Codec.RoundTripExamples Codec.CorrT Gen.Schemas.
 Import ListNotations.
 Open Scope N_scope.
 
-(* full statement: for every well-formed schema environment, struct and value, decoding the encoding gives the value back *)
-Definition C03_roundtrip_statement : Prop :=
-  forall (e : env) (sid : nat) (v : val), wf_env e = true ->
-  forall v', decode e sid (encode e sid v) = DOk v' [] -> val_sim (canon v') (canon v) = true.
+(* Struct-level round trip, for EVERY schema environment satisfying wf_schema (member tags strictly ascending
+   and < 256, declared defaults on scalar members only, by-value struct nesting of depth <= k), every struct
+   type of it - flat, with strings/byte vectors, vectors, maps, fixed arrays, nested and recursive structs -
+   and every well-typed value: decoding the encoding into a fresh target yields the normal form of the value
+   (the value itself except that an optional scalar that was omitted because it compares equal to its default
+   comes back as the default), and consumes the input exactly. The last hypothesis is the adequacy of the
+   model's fuel (4*len+64) for the value's recursion depth. *)
+Theorem C03_roundtrip : forall e k sid vs,
+  wf_schema k e -> (S k <= 64)%nat -> has_type e (TStruct sid) (VStruct vs) ->
+  (need_list vs + k + 3 <= 2 * length (encode e sid (VStruct vs)) + 64)%nat ->
+  decode e sid (encode e sid (VStruct vs)) = DOk (norm_struct e sid (VStruct vs)) [].
+Proof. exact RoundTripProofs.roundtrip_struct. Qed.
 
-(* proved: every scalar member type (bool, 8/16/32/64-bit signed and unsigned, float, double, string, enum)
-   round-trips at member level under any tag, before any suffix, with the cursor exactly at the suffix *)
-Theorem C03_scalar_member_roundtrip_partial : forall f e tag req t prior v rest, tag < 256 -> scalar_typed t v ->
+(* FIRST CLAUSE in the property's own terms: for every wf_schema environment whose declared defaults are values of
+   their member's type, every struct type with a finite type graph and every well-typed value, decoding the
+   encoding succeeds, consumes everything and yields a value EQUAL to the original (veq: identical except that
+   float members compare with Go's ==, i.e. -0 = +0; the decoded value is norm v) *)
+Theorem C03_roundtrip_equal : forall e k n sid vs,
+  wf_schema k e -> defaults_typed e -> (S k <= 64)%nat ->
+  tfin n e (TStruct sid) = true -> (tneed n e (TStruct sid) + k <= 64)%nat ->
+  has_type e (TStruct sid) (VStruct vs) ->
+  exists v', decode e sid (encode e sid (VStruct vs)) = DOk v' [] /\ veq e (TStruct sid) v' (VStruct vs).
+Proof. exact NormProofs.roundtrip_equal. Qed.
+Theorem C03_norm_equal : forall e, defaults_typed e -> forall sid vs, has_type e (TStruct sid) (VStruct vs) ->
+  veq e (TStruct sid) (norm_struct e sid (VStruct vs)) (VStruct vs).
+Proof. exact NormProofs.norm_veq. Qed.
+Theorem C03_code_schemas_roundtrip_equal : forall sid vs, fits_model sid = true ->
+  has_type env0 (TStruct sid) (VStruct vs) ->
+  exists v', decode env0 sid (encode env0 sid (VStruct vs)) = DOk v' [] /\ veq env0 (TStruct sid) v' (VStruct vs).
+Proof. exact RoundTripExamples.env0_roundtrip_equal. Qed.
+
+(* the same with the fuel condition discharged from the schema alone, for every struct type whose type graph
+   is finite (tfin) and whose static depth bound (tneed) fits the model's constant *)
+Theorem C03_roundtrip_static : forall e k n sid vs,
+  wf_schema k e -> (S k <= 64)%nat -> tfin n e (TStruct sid) = true -> (tneed n e (TStruct sid) + k <= 64)%nat ->
+  has_type e (TStruct sid) (VStruct vs) ->
+  decode e sid (encode e sid (VStruct vs)) = DOk (norm_struct e sid (VStruct vs)) [].
+Proof. exact RoundTripProofs.roundtrip_struct_static. Qed.
+
+(* into any admissible target (every position without a declared default holds the Go zero value), before any
+   suffix that cannot be mistaken for a member: the cursor stops exactly at the suffix *)
+Theorem C03_roundtrip_into : forall e k sid vs prior rest,
+  wf_schema k e -> has_type e (TStruct sid) (VStruct vs) -> zlike e (TStruct sid) prior ->
+  (forall fd, In fd (fields_of e sid) -> follows (ftag fd) rest) ->
+  (need_list vs + k + 3 <= 2 * length (encode e sid (VStruct vs) ++ rest) + 64)%nat ->
+  decode_into e sid prior (encode e sid (VStruct vs) ++ rest) = DOk (norm_struct e sid (VStruct vs)) rest.
+Proof. exact RoundTripProofs.roundtrip_into. Qed.
+
+(* the fuel the model needs is linear in the encoding, with a constant that depends on the schema only *)
+Theorem C03_fuel_linear : forall e n sid vs, tfin n e (TStruct sid) = true -> has_type e (TStruct sid) (VStruct vs) ->
+  (3 + need_list vs <= tneed n e (TStruct sid) + 2 * length (encode e sid (VStruct vs)))%nat.
+Proof. exact RoundTripProofs.need_top. Qed.
+
+(* The first clause with NO side condition on the schema's size, kept visible. It is not a theorem of the MODEL: the
+   model's fuel is 4*len+64, and a struct type with more members than that constant allows exhausts it (witness
+   below: 41 members, three levels). This limits the model, not the code - the generated Go decoder has no fuel;
+   the theorems above cover every struct type with tneed + k <= 64 (the regenerated packet and test schemas need at most 44 + 8)
+   and, with the explicit fuel hypothesis, every value of every struct type. *)
+Definition C03_roundtrip_statement : Prop :=
+  forall e k sid vs, wf_schema k e -> has_type e (TStruct sid) (VStruct vs) ->
+  decode e sid (encode e sid (VStruct vs)) = DOk (norm_struct e sid (VStruct vs)) [].
+Theorem C03_model_fuel_limit :
+  wf_schema_b 2 wide_schema = true /\ has_type_b 20 wide_schema (TStruct 0) (wide_deep 3) = true /\
+  decode wide_schema 0 (encode wide_schema 0 (wide_deep 3)) = DFuel.
+Proof. exact RoundTripExamples.model_fuel_limit. Qed.
+
+(* instantiated on the schemas regenerated from the tree: they satisfy wf_schema with typed defaults, and every
+   well-typed value of every generated struct type that fits the model (finite type graph, static depth bound
+   within the model's fuel constant: fits_model, decided by evaluation per struct type) round-trips; the packet types
+   and the test IDL's struct types are covered, the recursive test struct is not (C03_roundtrip applies to it).
+   Nothing here depends on how many struct types the tree generates or on their numbering. *)
+Theorem C03_code_schemas_wf : wf_schema 8 env0.
+Proof. exact RoundTripExamples.env0_wf_schema. Qed.
+Theorem C03_code_schemas_roundtrip : forall sid vs, fits_model sid = true ->
+  has_type env0 (TStruct sid) (VStruct vs) ->
+  decode env0 sid (encode env0 sid (VStruct vs)) = DOk (norm_struct env0 sid (VStruct vs)) [].
+Proof. exact RoundTripExamples.env0_roundtrip. Qed.
+Theorem C03_code_schemas_covered :
+  forallb fits_model [sid_requestf_RequestPacket; sid_requestf_ResponsePacket; sid_verifidl_Containers;
+                      sid_verifidl_Inner; sid_verifidl_Scalars; sid_verifidl_Tail] = true
+  /\ tfin 8 env0 (TStruct sid_verifidl_Rec) = false.
+Proof. exact RoundTripExamples.env0_covered. Qed.
+
+(* SECOND CLAUSE. The bytes WriteTo produces are a well-formed Tars encoding of the shape the schema prescribes:
+   for every wf_schema environment, struct type and well-typed value (encoding shorter than 2^30 bytes), they
+   are the serialisation (Skip.v: ser_fields, the independent description of the wire format) of a field list fs
+   built from the IDL types and the value alone (WireSpec.v: wire_fields/wire_of) that is well formed (fields_ok:
+   byte ranges, tags < 256, lengths within the format's fields, recursively), conforms to the schema (every field
+   under the tag of a member, in schema order, with a wire type the member's IDL type accepts; a member is
+   missing only if optional) and has strictly ascending tags (so every member at most once). Nested struct
+   values are WStruct (wire_fields ...) of their own schema, so the same holds at every level. *)
+Theorem C03_wire_conformance : forall e k sid vs,
+  wf_schema k e -> has_type e (TStruct sid) (VStruct vs) -> N.of_nat (length (encode e sid (VStruct vs))) < 1073741824 ->
+  let fs := wire_fields e vs (fields_of e sid) in
+  encode e sid (VStruct vs) = ser_fields fs /\ fields_ok fs /\ conforms (fields_of e sid) fs /\
+  StronglySorted N.lt (map fst fs).
+Proof. exact WireSpecProofs.encode_conforms. Qed.
+(* every member and element, at any depth: the bytes are the serialised wire tree of the value, or nothing when the
+   member is optional and left out *)
+Theorem C03_wire_member : forall e n, (forall tag req t d v, has_type e t v -> (need v <= n)%nat ->
+  enc_var e tag req t d v = if left_out t req d v then [] else ser_field (tag, wire_of e t v)).
+Proof. exact (fun e n => proj1 (WireSpecProofs.wire_all e n)). Qed.
+(* integers in their narrowest width: the wire tree of an integer serialises to the declarative spec_int of C02 *)
+Theorem C03_int_narrowest : forall z tag, fits 64 z = true -> ser_field (tag, wint z) = spec_int z tag.
+Proof. exact WireSpecProofs.wint_narrowest. Qed.
+(* the wire type of every member is one the reader of its IDL type accepts *)
+Theorem C03_wire_admissible : forall e t v, has_type e t v -> adm t (ty_of (wire_of e t v)) = true.
+Proof. exact WireSpecProofs.adm_wire. Qed.
+
+(* member level: every scalar member type round-trips under any tag, before any suffix, exact cursor *)
+Theorem C03_scalar_member_roundtrip : forall f e tag req t prior v rest, tag < 256 -> scalar_typed t v ->
   dec_var (S (S f)) e tag req t prior (w_scalar t v tag ++ rest) = DOk v rest.
 Proof. exact GenProofs.scalar_member_roundtrip. Qed.
 
-(* proved: an omitted optional scalar member decodes to its reset value without consuming anything *)
-Theorem C03_optional_member_absent_partial : forall f e tag t prior rest,
-  (match t with TVec _ | TMap _ _ | TArr _ _ | TStruct _ => False | _ => True end) ->
-  (rest = [] \/ exists ty tg r, read_head2 rest = Some (ty, tg, r, negb (tg <? 15)) /\ ((ty =? tSE) || (tag <? tg) = true)) ->
-  dec_var (S (S f)) e tag false t prior rest = DOk prior rest.
-Proof. exact GenProofs.optional_member_absent. Qed.
+(* the boolean checkers used to instantiate the hypotheses are sound *)
+Theorem C03_wf_schema_b_sound : forall k e, wf_schema_b k e = true -> wf_schema k e.
+Proof. exact RoundTripProofs.wf_schema_b_sound. Qed.
+Theorem C03_has_type_b_sound : forall e fuel t v, has_type_b fuel e t v = true -> has_type e t v.
+Proof. exact RoundTripProofs.has_type_b_sound. Qed.
 
-(* the regenerated schemas of the code's own struct types are well formed (tags ascending, < 256, references resolve) *)
-Theorem C03_code_schemas_wf : wf_env env0 = true.
-Proof. exact Schemas.env0_wf. Qed.
-
-Print Assumptions C03_scalar_member_roundtrip_partial.
-Print Assumptions C03_optional_member_absent_partial.
+Print Assumptions C03_roundtrip.
+Print Assumptions C03_roundtrip_equal.
+Print Assumptions C03_norm_equal.
+Print Assumptions C03_code_schemas_roundtrip_equal.
+Print Assumptions C03_roundtrip_static.
+Print Assumptions C03_roundtrip_into.
+Print Assumptions C03_fuel_linear.
+Print Assumptions C03_model_fuel_limit.
 Print Assumptions C03_code_schemas_wf.
+Print Assumptions C03_code_schemas_roundtrip.
+Print Assumptions C03_code_schemas_covered.
+Print Assumptions C03_wire_conformance.
+Print Assumptions C03_wire_member.
+Print Assumptions C03_int_narrowest.
+Print Assumptions C03_wire_admissible.
+Print Assumptions C03_scalar_member_roundtrip.
+Print Assumptions C03_wf_schema_b_sound.
+Print Assumptions C03_has_type_b_sound.
